@@ -20,69 +20,88 @@ def word1 (p : Char → Bool) (s : List Char) : Option (List Char × List Char) 
   let r := takeWhile p s
   if r.1.isEmpty then none else some r
 
+def lexMantissa (s : List Char) : Option (List Char × List Char) :=
+  match word1 isDigit s with
+  | some (ds, r) =>
+    match r with
+    | '.' :: r1 =>
+      match word1 isDigit r1 with
+      | some (fs, r2) => some (ds ++ ['.'] ++ fs, r2)
+      | none => some (ds ++ ['.'], r1)
+    | _ => some (ds, r)
+  | none =>
+    match s with
+    | '.' :: r1 =>
+      match word1 isDigit r1 with
+      | some (fs, r2) => some ('.' :: fs, r2)
+      | none => none
+    | _ => none
+
+def lexExpSign (r1 : List Char) : List Char × List Char :=
+  match r1 with
+  | c :: r2 => if c == '+' then (['+'], r2) else if minusChar c then (['-'], r2) else ([], r1)
+  | [] => ([], r1)
+
 def lexNumText (s : List Char) : Option (List Char × List Char) :=
-  let inner : Option (List Char × List Char) :=
-    match word1 isDigit s with
-    | some (ds, r) =>
-      match r with
-      | '.' :: r1 =>
-        match word1 isDigit r1 with
-        | some (fs, r2) => some (ds ++ ['.'] ++ fs, r2)
-        | none => some (ds ++ ['.'], r1)
-      | _ => some (ds, r)
-    | none =>
-      match s with
-      | '.' :: r1 =>
-        match word1 isDigit r1 with
-        | some (fs, r2) => some ('.' :: fs, r2)
-        | none => none
-      | _ => none
-  match inner with
+  match lexMantissa s with
   | none => none
   | some (txt, r) =>
     match r with
     | e :: r1 =>
       if e == 'e' || e == 'E' then
-        let sg : List Char × List Char :=
-          match r1 with
-          | c :: r2 => if c == '+' then (['+'], r2) else if minusChar c then (['-'], r2) else ([], r1)
-          | [] => ([], r1)
+        let sg := lexExpSign r1
         match word1 isDigit sg.2 with
         | some (ds, r3) => some (txt ++ ['E'] ++ sg.1 ++ ds, r3)
         | none => some (txt, r)
       else some (txt, r)
     | [] => some (txt, r)
 
+def optMinus (r : List Char) : List Char × List Char :=
+  match r with
+  | '-' :: r1 => (['-'], r1)
+  | _ => ([], r)
+
 def lexIndex (open1 : Char) (s : List Char) : Option (List Char × List Char) :=
   match s with
   | o :: '{' :: r =>
     if o == open1 then
-      let sg : List Char × List Char := match r with
-        | '-' :: r1 => (['-'], r1)
-        | _ => ([], r)
-      match word1 isAlnum sg.2 with
-      | some (w, '}' :: r2) => some ([o, '{'] ++ sg.1 ++ w ++ ['}'], r2)
+      match word1 isAlnum (optMinus r).2 with
+      | some (w, '}' :: r2) => some ([o, '{'] ++ (optMinus r).1 ++ w ++ ['}'], r2)
       | _ => none
     else none
   | _ => none
 
+def orSkip (o : Option (List Char × List Char)) (r : List Char) : List Char × List Char :=
+  match o with | some x => x | none => ([], r)
+
 def lexIndices (r : List Char) : List Char × List Char :=
-  let a := match lexIndex '_' r with | some x => x | none => ([], r)
-  let b := match lexIndex '^' a.2 with | some x => x | none => ([], a.2)
+  let a := orSkip (lexIndex '_' r) r
+  let b := orSkip (lexIndex '^' a.2) a.2
   (a.1 ++ b.1, b.2)
+
+def lexNameMid (rest : List Char) : List Char × List Char :=
+  match word1 (fun c => isAlnum c || c == '_') rest with
+  | some (w, rr) =>
+    match rr with
+    | '{' :: _ => lexIndices rest
+    | _ => (w, rr)
+  | none => lexIndices rest
 
 /-- name starting at an alphabetic char -/
 def lexName (s : List Char) : List Char × List Char :=
   let fr := takeWhile isAlnum s
-  let mid : List Char × List Char :=
-    match word1 (fun c => isAlnum c || c == '_') fr.2 with
-    | some (w, rr) =>
-      match rr with
-      | '{' :: _ => lexIndices fr.2
-      | _ => (w, rr)
-    | none => lexIndices fr.2
+  let mid := lexNameMid fr.2
   let pr := takeWhile (· == '\'') mid.2
   (fr.1 ++ mid.1 ++ pr.1, pr.2)
+
+/-- single-character tokens -/
+def opTok (c : Char) : Option Tok :=
+  if c == '+' then some .plus else if minusChar c then some .minus
+  else if c == '*' then some .star else if c == '/' then some .slash
+  else if c == '^' then some .caret else if c == '|' then some .pipe
+  else if c == '(' then some .lp else if c == ')' then some .rp
+  else if c == '[' then some .lb else if c == ']' then some .rb
+  else if c == ',' then some .comma else none
 
 def skipWs : List Char → List Char
   | c :: r => if isWs c then skipWs r else c :: r
@@ -106,13 +125,9 @@ def lexAux : Nat → List Char → Option (List Tok)
         let nm := lexName (c :: r)
         (lexAux f nm.2).map (Tok.name (String.ofList nm.1) :: ·)
       else
-        let one (t : Tok) := (lexAux f r).map (t :: ·)
-        if c == '+' then one .plus else if minusChar c then one .minus
-        else if c == '*' then one .star else if c == '/' then one .slash
-        else if c == '^' then one .caret else if c == '|' then one .pipe
-        else if c == '(' then one .lp else if c == ')' then one .rp
-        else if c == '[' then one .lb else if c == ']' then one .rb
-        else if c == ',' then one .comma else none
+        match opTok c with
+        | some t => (lexAux f r).map (t :: ·)
+        | none => none
 
 def lex (src : String) : Option (List Tok) :=
   let cs := src.toList.filter (· != ' ')
